@@ -105,7 +105,11 @@ def generator_oracle(rng, rounds):
                     bad(gen, params, f"probability 1 produced {cnt} of {math.comb(n, d + 1)} edges of order {d}")
         # complete hypergraph
         for kw in ({"order": rng.randint(1, 3)}, {"max_order": rng.randint(1, 3)}, {"max_order": 2, "include_singletons": True}):
-            H = xgi.complete_hypergraph(n, **kw)
+            try:
+                H = xgi.complete_hypergraph(n, **kw)
+            except Exception as e:  # noqa: BLE001
+                bad("complete_hypergraph", (n, kw), f"raised {type(e).__name__}: {e}")
+                continue
             if "order" in kw:
                 want = [frozenset(c) for c in itertools.combinations(range(n), kw["order"] + 1)]
             else:
@@ -308,6 +312,24 @@ def run(v):
         if all(isinstance(g, int) for g in rec.draws):
             spec = "[" + "; ".join(f"({d}%nat, {'PAll' if p == 1 else 'PNone' if p == 0 else 'PSkip'})" for d, p in enumerate(ps, start=1)) + "]"
             fast_cases.append(((n, ps, seed), G.gpair(spec, gnats(rec.draws), f"{n}%nat", gnatlists(members(H)))))
+    # complete_hypergraph: the edge list, in order, against the model's
+    complete_cases = []
+    gopt = lambda x: "None" if x is None else f"(Some {int(x)}%nat)"
+    for n in range(0, 7 if thorough else 6):
+        for kw in ([{"order": d} for d in range(0, 4)] + [{"max_order": mo} for mo in range(1, 4)] +
+                   [{"max_order": mo, "include_singletons": True} for mo in range(0, 4)]):
+            try:
+                with warnings.catch_warnings():
+                    warnings.simplefilter("ignore")
+                    H = xgi.complete_hypergraph(n, **kw)
+            except Exception as e:  # noqa: BLE001
+                failures.append((f"{PROP}:complete_hypergraph:raises", {"what": f"complete_hypergraph({n}, {kw}) raised {type(e).__name__}: {e}"}))
+                continue
+            if list(H.nodes) != list(range(n)):
+                failures.append((f"{PROP}:complete_hypergraph:nodes", {"what": f"complete_hypergraph({n}, {kw}) has nodes {list(H.nodes)}"}))
+            obs = [sorted(m) for m in H.edges.members()]
+            complete_cases.append(((n, kw), G.gpair(f"{n}%nat", gopt(kw.get("order")), gopt(kw.get("max_order")),
+                                                     G.gbool(kw.get("include_singletons", False)), gnatlists(obs))))
     cdir = C.cases_dir(PROP)
     body = ("Definition comb_t := [" + ";\n".join(G.gpair(f"{n}%nat", f"{m}%nat", gnatlists(t)) for n, m, t in comb_t) + "].\n"
             "Definition prod_t := [" + ";\n".join(G.gpair(f"{n}%nat", f"{m}%nat", gnatlists(t)) for n, m, t in prod_t) + "].\n"
@@ -318,9 +340,13 @@ def run(v):
     C.write_case_file(f2, [IMPORTS], "Definition cases := [\n" + ";\n".join(t for _, t in er_cases) + "\n].\nEval vm_compute in (er_bad cases).\n")
     f3 = os.path.join(cdir, "cases_C16_fast.v")
     C.write_case_file(f3, [IMPORTS], "Definition cases := [\n" + ";\n".join(t for _, t in fast_cases) + "\n].\nEval vm_compute in (fast_bad cases).\n")
-    res = C.run_coq_files([f1, f2, f3])
+    f4 = os.path.join(cdir, "cases_C16_complete.v")
+    C.write_case_file(f4, [IMPORTS], "Definition cases : list (nat * option nat * option nat * bool * list (list nat)) := [\n" +
+                      ";\n".join(t for _, t in complete_cases) + "\n].\nEval vm_compute in (complete_bad cases).\n")
+    res = C.run_coq_files([f1, f2, f3, f4])
     for path, keys, what in ((f1, None, "decoder tables"), (f2, er_cases, "uniform_erdos_renyi_hypergraph with recorded draws"),
-                             (f3, fast_cases, "fast_random_hypergraph with recorded draws")):
+                             (f3, fast_cases, "fast_random_hypergraph with recorded draws"),
+                             (f4, complete_cases, "complete_hypergraph edge list")):
         rc, out = res[path]
         pairs = C.parse_pairs(out) if rc == 0 else None
         if pairs is None:
@@ -333,7 +359,8 @@ def run(v):
     failures += ofails
     ndec = sum(len(t) for _, _, t in comb_t) + sum(len(t) for _, _, t in prod_t) + sum(len(t) for _, t in part_t)
     v.coverage.update({
-        "evaluations": ndec + len(er_cases) + len(fast_cases),
+        "evaluations": ndec + len(er_cases) + len(fast_cases) + len(complete_cases),
+        "complete_cases": len(complete_cases),
         "distinct_nontrivial": len(comb_t) + len(prod_t) + len(part_t) + len({k for k, _ in er_cases}) + len({repr(k) for k, _ in fast_cases}),
         "rule": f"decoders exhaustively for n <= {nmax}, m <= 5 (combinations), n <= 4, m <= 3 (tuples) and 7 block-size lists; "
                 "uniform_erdos_renyi_hypergraph (both multiedge modes) and fast_random_hypergraph re-run in the model from "
